@@ -87,6 +87,16 @@ SHAPES = ["hexagon", "rect-square", "rect-nonsquare", "circle", "cell", "cell3se
 SETTER_KINDS = ("hexagon", "circle", "cell", "cell3sec")
 
 
+def make_rect_like(rng, kind, pos, R, rot):
+    if kind == "rect-square":
+        half = R / math.sqrt(2)
+        return SH.Rectangle(pos - half * (1 + 1j), pos + half * (1 + 1j), rot), None
+    if kind == "rect-nonsquare":
+        w, h = R * rng.uniform(0.2, 1), R * rng.uniform(0.2, 1)
+        return SH.Rectangle(pos - complex(w, h), pos + complex(w, h), rot), None
+    return CL.CellSquare(pos, R, cell_id=1, rotation=rot), None
+
+
 def make_shape(rng, kind):
     pos = rand_pos(rng)
     R = 10.0 ** rng.uniform(-2, 2)
@@ -117,6 +127,12 @@ def make_shape(rng, kind):
         if kind == "circle":
             rot, rc = 0.0, "zero"
         return s, rc + "/setters"
+    if kind in ("rect-square", "rect-nonsquare", "cellsquare") and rng.random() < 0.3:
+        # rectangles keep absolute corners (pos/radius setters do not apply), but
+        # their rotation can be assigned after construction
+        s0, _ = make_rect_like(rng, kind, pos, R, float(rng.uniform(-180, 180)))
+        s0.rotation = rot
+        return s0, rc + "/rotation-setter"
     if kind == "hexagon":
         s = SH.Hexagon(pos, R, rot)
     elif kind == "rect-square":
